@@ -8,7 +8,7 @@ bad=0
 for d in preserving/R*/; do
   id=$(basename $d)
   [ -d $W ] || git -C /repo worktree add -q --detach $W HEAD || exit 2
-  git -C $W checkout -q --detach $(git -C /repo rev-parse HEAD) && git -C $W checkout -q -- . && git -C $W clean -fdq -e target
+  git -C $W reset -q --hard 2>/dev/null; git -C $W checkout -q --detach $(git -C /repo rev-parse HEAD) && git -C $W checkout -q -- . && git -C $W clean -fdq -e target
   unset VERIF_NO_SID
   if ! git -C $W apply "$PWD/$d/patch.diff" 2>/dev/null; then
     git -C $W checkout -q -- . ; git -C $W reset -q --hard
